@@ -12,7 +12,8 @@
 (* visible text, and txt naming the printed text.                          *)
 (* Events:  op in {"init","claim_leading","unclaim_leading",               *)
 (*   "claim_trailing","unclaim_trailing","claim_inner","unclaim_inner",    *)
-(*   "auto"}, who = the model / repeated field the call went to,           *)
+(*   "auto", "copy" (a deep copy observed, see Clause), "resume" (the       *)
+(*   original observed again after a copy)}, who = the model / repeated field the call went to,           *)
 (*   root = TRUE when `who` is the document root, exc = exception or "".   *)
 (***************************************************************************)
 EXTENDS Naturals, Sequences, FiniteSets, TLC, Json, IOUtils
@@ -45,6 +46,11 @@ Clause(ev) ==
     ELSE IF ev.txt # txt THEN "text-changed"                            \* C04
     ELSE IF ~AtMostOneOwner(ev) THEN "two-owners"
     ELSE IF ~ClaimedIffOwned(ev) THEN "claimed-flag"
+    ELSE IF ev.op = "copy" THEN
+        \* copy.deepcopy taken in this state: own / claimed were read from the COPY (comments by ordinal, owners
+        \* by parallel walk), vis / txt from the original afterwards.  The copy carries the same attribution.
+        IF ev.exc # "" THEN "copy-has-another-structure"
+        ELSE IF Changed(ev) # {} THEN "copy-attribution-differs" ELSE "ok"
     ELSE IF ev.exc # "" THEN (IF Changed(ev) # {} THEN "refused-call-changed-ownership" ELSE "ok")
     ELSE IF ev.op \in {"claim_leading", "claim_trailing"} THEN
         \* at most one comment changes, from unowned to <<kind, who>>
